@@ -359,8 +359,6 @@ pub fn recursion_programs(out: &mut Vec<(String, Program)>) {
         start_fn(vec![
             assign("hook", var("odd")),
             print_of(callv("even", vec![int(4)])),
-            def("rr", Expr::Blob("R".into(), vec![("go".into(), lam(vec![("n", Some(Ty::Int))], RetAnn::Ty(Ty::Int), vec![if_s(bin(BinOp::Le, var("n"), int(0)), vec![Stmt::Ret(Some(int(0)))]), Stmt::Expr(add(mul(var("n"), int(10)), call(pa("self", "go"), vec![n1(var("n"))])))]))])),
-            print_of(call(pa("rr", "go"), vec![int(3)])),
         ]),
     ];
     out.push(("recursion:mutual-and-method".to_string(), Program { tops }));
